@@ -274,11 +274,15 @@ def solver_cache_obligations(P):
     if nc.rets and base.rets:
         a, b = nc.rets[0].value, base.rets[0].value
         oka = isinstance(a, Tup) and isinstance(b, Tup) and len(a.items) == len(b.items)
+        gap = None
         if oka:
             for x, y in zip(a.items[1:], b.items[1:]):
-                fx, fy = x.meta.get("field"), y.meta.get("field")
-                oka = oka and fx is not None and fy is not None and isinstance(fx["synth"]["coeff"], Expr) and fx["synth"]["coeff"].eq(fy["synth"]["coeff"])
-        obs.append(req_ob("R-TRANSPARENT", site, "a miss computes exactly what the solver computes without a cache", bool(oka)))
+                fx, fy = (x.meta.get("field"), y.meta.get("field")) if isinstance(x, Arr) and isinstance(y, Arr) else (None, None)
+                if fx is None or fy is None or not isinstance(fx["synth"]["coeff"], Expr) or not isinstance(fy["synth"]["coeff"], Expr):
+                    gap = "the returned fields of the abstract solver run are not completely modelled"
+                    continue
+                oka = oka and fx["synth"]["coeff"].eq(fy["synth"]["coeff"])
+        obs.append(req_ob("R-TRANSPARENT", site, "a miss computes exactly what the solver computes without a cache", None if gap else bool(oka), detail=gap))
     return obs
 
 
